@@ -661,6 +661,7 @@ def conclude(
                 "property": ctx.prop,
                 "kind": "broken-tie",
                 "no_longer_checks": tie_broken,
+                "mismatches": [dict(observation=m.observation, input=m.input, impl=m.impl, model=m.model) for m in outside[:5]],
                 "searched": {"evaluations": res.evaluations, "distinct": len(res.distinct)},
                 "seed": ctx.seed,
                 "tier": ctx.tier,
